@@ -286,11 +286,18 @@ def apply(model, api, as_ir, opts):
         vc.convert_version(arg, opts["target"], fallback=opts.get("fallback"))
         r = arg
     elif api == "replace_functions":
+        # the documented use: a model that calls custom operators + the FunctionProtos that define them. The model-local functions of the
+        # generated model are detached and handed in (opts["detach"]); a model without functions gets the empty list
+        fps = []
+        if opts.get("detach"):
+            fps = [onnx.FunctionProto.FromString(f.SerializeToString()) for f in m.functions]
+            del m.functions[:]
+            arg = ir.serde.deserialize_model(m) if as_ir else m
         if as_ir:
-            repl.replace_functions_inplace(arg, [])
+            repl.replace_functions_inplace(arg, [ir.serde.deserialize_function(f) for f in fps])
             r = arg
         else:
-            r = repl.replace_functions(arg, [])
+            r = repl.replace_functions(arg, fps)
     elif api == "serde_only":
         r = arg
     else:
@@ -343,8 +350,13 @@ def check(model, api, opts):
         verdicts.append((f"proto_vs_ir:{api}:{_field_class(d)}", d))
     # (4) argument handling
     if api in FUNCTIONAL and after is not None:
-        if after.SerializeToString(deterministic=True) != model.SerializeToString(deterministic=True):
-            dd = included(model, after) or included(after, model) or ["bytes differ"]
+        given = model
+        if api == "replace_functions" and opts.get("detach"):  # (the argument was the model without its functions)
+            given = onnx.ModelProto()
+            given.CopyFrom(model)
+            del given.functions[:]
+        if after.SerializeToString(deterministic=True) != given.SerializeToString(deterministic=True):
+            dd = included(given, after) or included(after, given) or ["bytes differ"]
             verdicts.append((f"argument_mutated:{api}", dd[0]))
     if api in INPLACE and after is not None and rp is not after:
         verdicts.append((f"inplace_returns_other_object:{api}", ""))
@@ -353,7 +365,25 @@ def check(model, api, opts):
             verdicts.append(("rewrite_empty_changes_model", (included(model, rp) or included(rp, model) or ["?"])[0]))
     # (2) untouched fields survive: compare N(M) with f(M)
     verdicts += untouched(n1, rp, api)
+    if api == "replace_functions" and opts.get("detach"):
+        # "custom operations replaced by their expansions": no call to a supplied function is left at any depth, on either path
+        ids = {(f.domain, f.name) for f in model.functions}
+        for label, res in (("proto", rp), ("ir", ri)):
+            left = sorted({(x.domain, x.op_type) for x in _walk_nodes(res.graph.node) if (x.domain, x.op_type) in ids})
+            if left:
+                verdicts.append((f"replace_functions:call_left_unexpanded:{label}", f"{left}"))
     return verdicts, info
+
+
+def _walk_nodes(nodes):
+    for x in nodes:
+        yield x
+        for a in x.attribute:
+            if a.type == onnx.AttributeProto.GRAPH:
+                yield from _walk_nodes(a.g.node)
+            elif a.type == onnx.AttributeProto.GRAPHS:
+                for g in a.graphs:
+                    yield from _walk_nodes(g.node)
 
 
 def _field_class(d):
@@ -440,11 +470,10 @@ def run_shard(spec):
         if api == "optimize" and data.draw(st.booleans()):
             opts = {"inline": False}
         if api == "replace_functions" and model.functions:
-            col.skip("replace_functions_requires_no_local_functions")
-            return
+            opts = {"detach": True}
         verdicts, info = check(model, api, opts)
         nontrivial = len(kinds) >= 3 or bool(exotic)
-        classes = ["api:" + api] + ["deco:" + k for k in kinds] + ["exotic:" + e for e in exotic] + (["api_raised"] if info.get("raised") else [])
+        classes = ["api:" + api] + (["replace_functions:with_functions"] if opts.get("detach") else []) + sorted("gen:" + f for f in gm.features if f.startswith("function")) + ["deco:" + k for k in kinds] + ["exotic:" + e for e in exotic] + (["api_raised"] if info.get("raised") else [])
         col.case((modelgen.model_hash(model), api, sorted(opts.items())), nontrivial, classes,
                  sample={"api": api, "opts": opts, "decoration": kinds, "exotic": exotic, "model": modelgen.model_text(model, 700)})
         for bucket, detail in verdicts:
